@@ -690,3 +690,123 @@ Qed.
 
 Lemma nodupb_iff : forall l : list string, nodupb l = true <-> NoDup l.
 Proof. intro l. split; [apply nodupb_NoDup | apply NoDup_nodupb]. Qed.
+
+(* ------------------------------------------------------------------------------------------- *)
+(** * every identifier kind (look-up may use any [IdentifierOption]) *)
+
+Inductive kind := Kcas | Kname | Kiupac | Ksmiles | Kinchi | Kformula.
+
+Definition get_kind (k : kind) (i : ident) : option string :=
+  match k with
+  | Kcas => i_cas i | Kname => i_name i | Kiupac => i_iupac i
+  | Ksmiles => i_smiles i | Kinchi => i_inchi i | Kformula => i_formula i
+  end.
+
+Definition all_kinds : list kind := [Kcas; Kname; Kiupac; Ksmiles; Kinchi; Kformula].
+
+Lemma all_kinds_complete : forall k, In k all_kinds.
+Proof. destruct k; simpl; auto 10. Qed.
+
+(** the identifier [b] (of a binary record) agrees with the identifier [p] (of a pure record): every kind [b]
+    states is stated by [p] with the same value *)
+Definition agreesb (b p : ident) : bool :=
+  forallb (fun k => match get_kind k b with
+                    | None => true
+                    | Some x => match get_kind k p with Some y => String.eqb x y | None => false end
+                    end) all_kinds.
+
+Definition agrees (b p : ident) : Prop := forall k x, get_kind k b = Some x -> get_kind k p = Some x.
+
+Lemma agreesb_sound : forall b p, agreesb b p = true -> agrees b p.
+Proof.
+  intros b p H k x E. unfold agreesb in H. rewrite forallb_forall in H.
+  specialize (H k (all_kinds_complete k)). rewrite E in H.
+  destruct (get_kind k p) as [y|]; [|discriminate]. apply String.eqb_eq in H. now subst.
+Qed.
+
+Lemma agrees_agreesb : forall b p, agrees b p -> agreesb b p = true.
+Proof.
+  intros b p H. unfold agreesb. apply forallb_forall. intros k _.
+  destruct (get_kind k b) as [x|] eqn:E; auto. rewrite (H k x E). apply String.eqb_refl.
+Qed.
+
+(** a binary identifier resolves in a collection: it has a name and some record of the collection agrees with it
+    on every kind it states (so it cannot name one substance and carry the CAS number of another) *)
+Definition id_resolvesb (ids : list ident) (b : ident) : bool :=
+  match i_name b with Some _ => existsb (agreesb b) ids | None => false end.
+
+Definition id_resolves (ids : list ident) (b : ident) : Prop :=
+  (exists n, i_name b = Some n) /\ exists p, In p ids /\ agrees b p.
+
+Lemma id_resolvesb_sound : forall ids b, id_resolvesb ids b = true -> id_resolves ids b.
+Proof.
+  intros ids b H. unfold id_resolvesb in H. destruct (i_name b) as [n|] eqn:E; [|discriminate].
+  split; [now exists n|]. apply existsb_exists in H. destruct H as [p [Hp A]].
+  exists p. split; auto. now apply agreesb_sound.
+Qed.
+
+Definition bin_ids_okb (ids : list ident) (l : list bin_rec) : bool :=
+  forallb (fun r => id_resolvesb ids (b_id1 r) && id_resolvesb ids (b_id2 r)) l.
+
+Definition bin_ids_ok (ids : list ident) (l : list bin_rec) : Prop :=
+  Forall (fun r => id_resolves ids (b_id1 r) /\ id_resolves ids (b_id2 r)) l.
+
+Theorem bin_ids_okb_sound : forall ids l, bin_ids_okb ids l = true -> bin_ids_ok ids l.
+Proof.
+  intros ids l H. apply Forall_forall. intros r Hr. unfold bin_ids_okb in H. rewrite forallb_forall in H.
+  specialize (H r Hr). apply andb_true_iff in H. destruct H. split; now apply id_resolvesb_sound.
+Qed.
+
+(** if a kind is duplicate free in the collection, look-up by that kind of what the binary identifier states
+    returns a record that agrees with the whole binary identifier *)
+Theorem resolves_lookup : forall (ids : list ident) k,
+    NoDup (keys (get_kind k) ids) ->
+    forall b, id_resolves ids b -> forall x, get_kind k b = Some x ->
+    exists p, lookup (get_kind k) x ids = Some p /\ agrees b p.
+Proof.
+  intros ids k ND b [_ [p [Hp A]]] x E. exists p. split; auto.
+  apply lookup_own; auto.
+Qed.
+
+Definition kind_nodupb (k : kind) (ids : list ident) : bool := nodupb (keys (get_kind k) ids).
+
+Theorem bin_lookup_any_kind : forall ids l k,
+    bin_ids_okb ids l = true -> kind_nodupb k ids = true ->
+    Forall (fun r => forall b, b = b_id1 r \/ b = b_id2 r -> forall x, get_kind k b = Some x ->
+                     exists p, lookup (get_kind k) x ids = Some p /\ agrees b p) l.
+Proof.
+  intros ids l k H N. apply bin_ids_okb_sound in H. apply nodupb_NoDup in N.
+  eapply Forall_impl; [|exact H]. intros r [R1 R2] b [->| ->] x E; eapply resolves_lookup; eauto.
+Qed.
+
+(** ** per-kind uniqueness in a pure collection, with recorded exceptions (values known to repeat) *)
+Definition pure_ids (l : list pure_rec) : list ident := map p_id l.
+
+Definition kind_uniqb (k : kind) (exc : list string) (ids : list ident) : bool :=
+  nodupb (filter (fun v => negb (memb v exc)) (keys (get_kind k) ids)).
+
+Theorem kind_uniqb_sound : forall k exc ids,
+    kind_uniqb k exc ids = true -> NoDup (filter (fun v => negb (memb v exc)) (keys (get_kind k) ids)).
+Proof. intros k exc ids. apply nodupb_NoDup. Qed.
+
+Lemma filter_no_exceptions : forall l : list string, filter (fun v => negb (memb v [])) l = l.
+Proof. induction l as [|a t IH]; [reflexivity|]. cbn [filter]. unfold memb at 1. cbn [existsb negb]. now rewrite IH. Qed.
+
+(** full strength (no exception): every record is the one look-up by kind [k] returns for its own identifier *)
+Theorem kind_uniqb_lookup : forall k ids,
+    kind_uniqb k [] ids = true ->
+    NoDup (keys (get_kind k) ids)
+    /\ forall p x, In p ids -> get_kind k p = Some x -> lookup (get_kind k) x ids = Some p.
+Proof.
+  intros k ids H. apply kind_uniqb_sound in H. rewrite filter_no_exceptions in H. split; auto.
+  intros p x. now apply lookup_own.
+Qed.
+
+Definition ex_b := mk_ident (Some "110-83-8") (Some "cyclohexane") None (Some "C1CCCCC1") None None.
+Definition ex_p := mk_ident (Some "110-82-7") (Some "cyclohexane") (Some "cyclohexane") (Some "C1CCCCC1") None (Some "C6H12").
+
+Example ex_wrong_cas_rejected : id_resolvesb [ex_p] ex_b = false.
+Proof. vm_compute. reflexivity. Qed.
+
+Example ex_partial_id_accepted : id_resolvesb [ex_p] (mk_ident None (Some "cyclohexane") None (Some "C1CCCCC1") None None) = true.
+Proof. vm_compute. reflexivity. Qed.
